@@ -788,7 +788,7 @@ func startSigningServices(ctx context.Context,
 
 	log.Trace().Msg("Starting beacon committee subscriber service")
 	beaconCommitteeSubscriber, err := standardbeaconcommitteesubscriber.New(ctx,
-		standardbeaconcommitteesubscriber.WithLogLevel(util.LogLevel("beaconcommiteesubscriber")),
+		standardbeaconcommitteesubscriber.WithLogLevel(util.LogLevel("beaconcommitteesubscriber")),
 		standardbeaconcommitteesubscriber.WithProcessConcurrency(util.ProcessConcurrency("beaconcommitteesubscriber")),
 		standardbeaconcommitteesubscriber.WithMonitor(monitor),
 		standardbeaconcommitteesubscriber.WithChainTimeService(chainTime),
